@@ -245,11 +245,18 @@ func isReloadRequired(entry cacheEntry, checkInterval time.Duration) bool {
 // and store the key if an error is not returned.
 func (c *keyCache) GetOrLoad(id KeyMeta, loader func(KeyMeta) (*internal.CryptoKey, error)) (*cachedCryptoKey, error) {
 	c.rw.RLock()
+
 	k, ok := c.getFresh(id)
+	if ok {
+		// take our reference before releasing the lock, otherwise a concurrent eviction
+		// or refresh may drop the cache's reference and destroy the key first
+		k = tracked(k)
+	}
+
 	c.rw.RUnlock()
 
 	if ok {
-		return tracked(k), nil
+		return k, nil
 	}
 
 	c.rw.Lock()
